@@ -107,7 +107,7 @@ CLAIMED = {
    text="Contract proof (CBMC, loop-free) on the real text of Eq/Ne/Le/Ge/Lt/Gt from logic.cpp against assumed contracts of Number::sub, is_negative, "
         "is_zero and eq: for all pairs of real numbers of any kind (integer, rational, double, +-oo) the four order relations are true exactly when "
         "the numeric relation holds, Le = not Lt swapped, Ge = Le swapped, Eq/Ne symmetric and negations; invalid operands are rejected; symbolic "
-        "operands give the relation with operands in the stated order. The 'after substitution' clause is not covered.",
+        "operands give the relation with operands in the stated order; logical_not of the four relational classes negates the relation (order relations with swapped operands). The 'after substitution' clause is not covered.",
    note="Trusted: ghost-number prelude (sub exact on ghost values; for doubles IEEE subtraction has the sign of the exact difference), __cmp__ total order (C02), extraction rules, CBMC.",
    tech="contract-based deductive verification with CBMC on mechanically extracted function text (route F), callers checked against assumed contracts of Number::sub/is_negative/eq"),
 }
